@@ -1912,3 +1912,100 @@ def c04_r11(ctx: Ctx, rule):
 
 RULES.setdefault("C04", []).append(Rule("C04.R11", "comparing and hashing write nothing, except a cache that every writer of the compared fields resets (C13.R1 restricted to __eq__ / __ne__ / __hash__)", 10, c04_r11, "F-OWN",
                                         "a == b and hash(a) are computed from the current content: a record changed after a first comparison does not keep its old identity"))
+
+
+# ===================================================================================== one-shot locals walked twice (shared)
+ONE_SHOT_ENTRIES = dict(CACHE_ENTRIES)
+ONE_SHOT_ENTRIES.update({
+    "C06": [BUNDLE + ".get_provn", RECORD + ".get_provn"],
+    "C13": [DOC + ".serialize", BUNDLE + ".get_provn", DOC + ".unified", DOC + ".flattened", GR + ".prov_to_graph", DOT + ".prov_to_dot"],
+    "C18": [BUNDLE + ".get_records", BUNDLE + ".get_record"],
+    "C01": [JS + ".ProvJSONSerializer.serialize", JS + ".ProvJSONSerializer.deserialize"],
+    "C02": [XM + ".ProvXMLSerializer.serialize", XM + ".ProvXMLSerializer.deserialize"],
+})
+
+
+def one_shot_local_rule(prop):
+    def run(ctx: Ctx, rule):
+        """A generator expression, map / filter / zip / itertools object or generator-function result held in a local can be
+        walked once.  If the local has two walking sites and the second is reachable from the first (CFG), the second sees nothing
+        - typically a count or a log line placed in front of the real loop.  Materialising (`list(x)`) in between is a rebinding
+        and ends the one-shot value."""
+        res = RuleResult()
+        eff = get_effects(ctx)
+        entries = ONE_SHOT_ENTRIES[prop]
+        closure = set()
+        for e in entries:
+            if e not in ctx.p.functions:
+                raise AnalysisError("anchor vanished: function %s" % e)
+            closure |= set(eff.closure(e)) | {e}
+        probe = ast.parse("def f(a):\n    g = (x for x in a)\n    n = sum(1 for _ in g)\n    for y in g:\n        pass\n").body[0]
+        if len(_iteration_sites(probe, "g")) != 2:
+            raise AnalysisError("iteration-site matcher self-check failed")
+        n_locals = 0
+        for q in sorted(closure):
+            fi = ctx.p.functions.get(q)
+            if fi is None or isinstance(fi.node, ast.Lambda) or fi.module.startswith("scripts."):
+                continue
+            for a in walk_function(fi.node):
+                if not (isinstance(a, ast.Assign) and len(a.targets) == 1 and isinstance(a.targets[0], ast.Name)):
+                    continue
+                name = a.targets[0].id
+                why = _is_one_shot(ctx, fi, a.value)
+                if not why:
+                    continue
+                defs = [x for x in walk_function(fi.node) if isinstance(x, ast.Assign) and any(isinstance(t, ast.Name) and t.id == name for t in x.targets)]
+                other_defs = [x for x in defs if x is not a]
+                n_locals += 1
+                sites = _iteration_sites(fi.node, name)
+                # sites that consume: a `for` / comprehension / materialiser / sum(..) over the name, also inside a nested genexp
+                extra = [c for c in walk_function(fi.node) if isinstance(c, ast.Call) and call_name(c) in ("zip", "enumerate", "chain", "map", "filter") and any(isinstance(x, ast.Name) and x.id == name for x in c.args)]
+                sites = sites + [c for c in extra if c not in sites]
+                for gen in [x for x in walk_function(fi.node) if isinstance(x, (ast.GeneratorExp, ast.ListComp, ast.SetComp, ast.DictComp))]:
+                    for g2 in gen.generators:
+                        if isinstance(g2.iter, ast.Name) and g2.iter.id == name and g2 not in sites:
+                            sites.append(g2)
+                # handing the iterator to the caller after a walk hands over an exhausted one: `return name` counts as a use
+                walked = list(sites)
+                sites = sites + [r for r in walk_function(fi.node) if isinstance(r, ast.Return) and isinstance(r.value, ast.Name) and r.value.id == name]
+                if not walked:
+                    continue
+                res.ob("%s: local `%s` holds %s; walking sites: %d" % (short(q) if q.count(".") > 2 else q, name, why, len(sites)))
+                if len(sites) < 2:
+                    continue
+                g = get_cfg(ctx, q)
+                nodes = []
+                try:
+                    na = node_of(g, a)
+                    od = {node_of(g, x).id for x in other_defs}
+                except Exception:
+                    continue
+                for st in sites:
+                    try:
+                        nd = node_of(g, st if not isinstance(st, ast.comprehension) else st.iter)
+                    except Exception:
+                        continue
+                    # only walks that can see THIS value: reachable from its definition without passing a rebinding
+                    if nd.id not in od and g.find_path(na, nd, avoid=lambda x: x.id in od, labels_excluded=("exc", "raise")) is not None:
+                        nodes.append((nd, st))
+                bad = None
+                for i, (n1, s1) in enumerate(nodes):
+                    for j, (n2, s2) in enumerate(nodes):
+                        if i != j and (n1.id == n2.id and i < j or (n1.id != n2.id and g.find_path(n1, n2, avoid=lambda x: x.id in od, labels_excluded=("exc", "raise")) is not None)):
+                            bad = (s1, s2)
+                            break
+                    if bad:
+                        break
+                if bad:
+                    res.fail(rule.id, "one-shot-walked-twice::%s::%s" % (q, name), ctx.loc(q, bad[1] if not isinstance(bad[1], ast.comprehension) else bad[1].iter),
+                             "%s walks `%s` (%s) at line %d and again at line %d: the second walk sees nothing" % (short(q) if q.count(".") > 2 else q, name, why, getattr(bad[0], "lineno", getattr(getattr(bad[0], "iter", None), "lineno", 0)), getattr(bad[1], "lineno", getattr(getattr(bad[1], "iter", None), "lineno", 0))),
+                             "with DEBUG logging on (or whenever the first walk runs), the records / bundles the second walk was meant to process are silently missing from the result")
+        res.ob("one-shot locals in the closure of %s: %d" % ([short(e) for e in entries], n_locals), nontrivial=False)
+        return res
+
+    return run
+
+
+for _p, _r in (("C06", "C06.R16"), ("C09", "C09.R15"), ("C13", "C13.R9"), ("C18", "C18.R14"), ("C08", "C08.R17"), ("C12", "C12.R12"), ("C14", "C14.R10"), ("C15", "C15.R13"), ("C16", "C16.R15"), ("C07", "C07.R15"), ("C01", "C01.R18"), ("C02", "C02.R19")):
+    RULES.setdefault(_p, []).append(Rule(_r, "a one-shot iterator held in a local is walked at most once on any path of this property's entry points", 0, one_shot_local_rule(_p), "F-PATH",
+                                         "counting or logging what is about to be processed does not consume it"))
